@@ -22,6 +22,9 @@ os.makedirs(os.path.join(HERE, "reference"), exist_ok=True)
 json.dump(loc, open(os.path.join(HERE, "reference", "locals.json"), "w"), indent=0, sort_keys=True)
 localnames._ref = None
 print("locals.json: %d files, %d functions, %d locals" % (len(loc), sum(len(v) for v in loc.values()), sum(len(x) for v in loc.values() for x in v.values())))
+from sa.rules import total
+t = total.freeze(Repo("/repo"))
+print("total.json: %d stored self-attributes, %d value-total functions" % (len(t["self_attrs"]), len(t["value_total"])))
 out = {}
 for pid in ALL:
     code, ctx = run_property(pid, "/repo", "quick", quiet=True, write_evidence=False)
